@@ -1354,3 +1354,24 @@ theorem runHistory_independent {α : Type} (gt : String) (enc : Enc α) (ct : In
     simp only [runHistory, List.map_cons, h1, ih (fun x hx => hall x (by simp [hx])) _ h2]
 
 end HdVerif.Ann
+
+namespace HdVerif.Ann
+open HdVerif HdVerif.Gen
+
+/-- no group carries a number above the last one -/
+theorem filter_number_above (gs : List GroupInfo) : ∀ (off target : Int), numberedFrom off gs → off + (gs.length : Int) < target →
+    gs.filter (fun g => g.number = target) = [] := by
+  induction gs with
+  | nil => intro _ _ _ _; rfl
+  | cons g rest ih =>
+    intro off target h ht
+    have hg : g.number = off + 1 := by
+      have := h 0 (by simp)
+      simp only [List.getElem_cons_zero] at this
+      rw [this]; simp
+    simp only [List.length_cons] at ht
+    have hne : ¬ (g.number = target) := by push_cast at ht; omega
+    simp only [List.filter_cons, hne, decide_false, Bool.false_eq_true, if_false]
+    exact ih (off + 1) target (numberedFrom_tail off g rest h) (by push_cast at ht ⊢; omega)
+
+end HdVerif.Ann
